@@ -451,16 +451,19 @@ def _wrap_public_method(cls, name, event, tag):
         if depth.get(key):
             return original(self, *args, **kwargs)
         depth[key] = 1
+        # arguments as they were before the call (some methods change a separation list in place)
+        before = tuple(list(a) if type(a) is list else a for a in args)
+        before_kwargs = {k: (list(v) if type(v) is list else v) for k, v in kwargs.items()} if kwargs else kwargs
         try:
             result = original(self, *args, **kwargs)
         except BaseException as exc:
             for h in handlers:
-                h(self, name, args, kwargs, None, exc)
+                h(self, name, before, before_kwargs, None, exc)
             raise
         finally:
             del depth[key]
         for h in handlers:
-            h(self, name, args, kwargs, result, None)
+            h(self, name, before, before_kwargs, result, None)
         return result
 
     wrapper._verif_wrapped = True
